@@ -8,7 +8,7 @@ use crate::pay::Pay;
 use crate::sched::{Clause, Lid, Sched};
 use crate::shape::*;
 use crate::spec::*;
-use happylock::collection::{BoxedLockCollection, OwnedLockCollection, RetryingLockCollection};
+use happylock::collection::{BoxedLockCollection, OwnedLockCollection, RefLockCollection, RetryingLockCollection};
 use happylock::poisonable::Poisonable;
 
 #[derive(Debug)]
@@ -24,6 +24,7 @@ pub struct World {
     unit_ptr: Vec<Option<*const Unit>>,
     /// shared targets (None if construction was rejected)
     targets: Vec<std::sync::atomic::AtomicPtr<Node>>,
+    datas: Vec<*mut CML>,
 }
 
 unsafe impl Send for World {}
@@ -80,7 +81,12 @@ impl World {
                 }
             }
         }
-        let mut w = World { spec: spec.clone(), arena, leaf_ptr, unit_ptr, targets: Vec::new() };
+        let mut w = World { spec: spec.clone(), arena, leaf_ptr, unit_ptr, targets: Vec::new(), datas: Vec::new() };
+        for d in &spec.datas {
+            // exclusive borrows of arena leaves (no other reference to these leaves is ever made)
+            let members: Vec<&'static mut Leaf> = d.leaves.iter().map(|l| unsafe { &mut *(w.leaf_ptr[*l].expect("data leaf must have an arena slot") as *mut Leaf) }).collect();
+            w.datas.push(Box::into_raw(Box::new(Cont::build(d.cont, members))));
+        }
         for i in 0..spec.targets.len() {
             let t = spec.targets[i].clone();
             let r = w.build(&t, sched);
@@ -141,6 +147,16 @@ impl World {
                     }
                 }
                 Ok(Node::Tagged(Box::new(n), Tag(*tag)))
+            }
+            TSpec::OnData { data, kind, from, poison } => {
+                let d: &'static CML = unsafe { &*self.datas[*data] };
+                Ok(match (kind, poison) {
+                    (CollKind::Ref, _) => Node::DRef(if *from { RefLockCollection::from(d) } else { RefLockCollection::new(d) }),
+                    (CollKind::Boxed, false) => Node::DBoxed(BoxedLockCollection::new_ref(d)),
+                    (CollKind::Boxed, true) => Node::PDBoxed(Box::new(Poisonable::new(BoxedLockCollection::new_ref(d)))),
+                    (CollKind::Retry, false) => Node::DRetry(Box::new(RetryingLockCollection::new_ref(d))),
+                    (CollKind::Retry, true) => Node::PDRetry(Box::new(Poisonable::new(RetryingLockCollection::new_ref(d)))),
+                })
             }
             TSpec::Own { kind, cont, leaves, ctor, poison } => self.build_own(*kind, *cont, leaves, *ctor, *poison, sched),
             TSpec::Coll { kind, cont, members, poison } => {
@@ -295,6 +311,9 @@ impl World {
             if !p.is_null() {
                 drop(unsafe { Box::from_raw(p) });
             }
+        }
+        while let Some(d) = self.datas.pop() {
+            drop(unsafe { Box::from_raw(d) });
         }
         drop(unsafe { Box::from_raw(self.arena) });
         self.arena = std::ptr::slice_from_raw_parts_mut(std::ptr::NonNull::<SlotObj>::dangling().as_ptr(), 0);
